@@ -205,6 +205,7 @@ class Pkg(object):
         from .known_funcs import KNOWN as _KNOWN
         _canon.FOREIGN_HOME_MODULES.clear()
         _canon.FOREIGN_HOME_MODULES.update(n for n in self.mods if "." not in n)
+        _canon.FOREIGN_INLINED.clear()
         _canon.FOREIGN.clear()
         _canon.FOREIGN.update(_canon.build_foreign({name: m.tree for name, m in self.mods.items()}, _KNOWN))
         for mod in self.mods.values():
